@@ -20,7 +20,7 @@ from vf import build, recs, tlc
 _PID = "-%d" % os.getpid()
 
 KIND_CODE = {"next": 1, "setprio": 2, "addback": 3, "addfront": 4, "conduse": 5, "readd": 6, "tick": 7, "otherclear": 8, "reload": 9, "replace": 10}
-ALPHA_LETTER = {"n": 1, "s": 2, "a": 3, "f": 4, "c": 5, "r": 6, "t": 7, "v": 2, "x": 8, "R": 9, "p": 10}
+ALPHA_LETTER = {"n": 1, "s": 2, "a": 3, "f": 4, "c": 5, "r": 6, "t": 7, "v": 2, "x": 8, "R": 9, "p": 10, "E": 1}
 SIG_CLAUSE = {"C17:wait-unperturbed": "wait-unperturbed", "C17:wait-perturbed": "wait", "C17:proportion": "proportion",
               "C17:selected-message-without-priority-or-none": "selection", "C17:crash-in-real-code": "crash-in-real-code"}
 # sub-alphabets in increasing order; the first one on which the monitor rejects names the signature
@@ -128,7 +128,7 @@ def _judge_graph(ctx, exe, wd, job, cfg, graph, info, clause, stats, samples, te
 
 def _run_job(ctx, exe, wd, job, stats, samples):
     t0 = time.time()
-    clauses = ["prop", "wait"] if set(job.alpha) & set("rxRp") else ["both"]   # on re-add graphs report each clause on its own
+    clauses = ["prop", "wait"] if set(job.alpha) & set("rxRpE") else ["both"]   # on re-add graphs report each clause on its own
     cfg = _cfgfile(wd, job.name, job.prios, job.maxnodes, job.cap, job.alpha, job.setprios)
     graph = os.path.join(wd, job.name + ".ndjson")
     out = recs.run_harness(ctx, exe, ["graph", cfg, graph], env=None if job.state else {"C17_NOSTATE": "1"}, timeout=3000)
@@ -192,7 +192,8 @@ def run(ctx):
             Job("n3victim", [1, 2, 8], "nv", [8, 9], 1),
             Job("n2readd", [1, 2], "nr", [1, 2], 1, cap=12, maxnodes=8000),
             Job("n2other", [1, 2], "nxRv", [2, 3], 1, cap=16, maxnodes=8000),
-            Job("n2replace", [1, 2], "npf", [1, 3], 1, cap=8, maxnodes=8000)]
+            Job("n2replace", [1, 2], "npf", [1, 3], 1, cap=8, maxnodes=8000),
+            Job("n3cond0", [1, 2, 0], "ncE", [1], 1, cap=20, maxnodes=8000)]
     if ctx.thorough:
         jobs = [Job("n2full", [1, 2], "ntsaf", [1, 2, 3], 2),
                 Job("n2cond7", [1, 2], "nsafc", [1, 7], 1),
@@ -205,14 +206,15 @@ def run(ctx):
                 Job("n2other", [1, 2], "nxRs", [1, 3], 1, cap=24, maxnodes=30000),
                 Job("n3other", [1, 2, 3], "nxRv", [1, 3], 1, cap=12, maxnodes=30000),
                 Job("n2replace", [1, 2], "npsf", [1, 3], 1, cap=8, maxnodes=30000),
-                Job("n3replace", [1, 2, 3], "npf", [1, 3], 1, cap=8, maxnodes=30000)]
+                Job("n3replace", [1, 2, 3], "npf", [1, 3], 1, cap=8, maxnodes=30000),
+                Job("n3cond0", [1, 2, 0], "ncsE", [7], 1, cap=32, maxnodes=30000)]
     for job in jobs:
         _run_job(ctx, exe, wd, job, stats, samples)
 
     # 3. long seeded random executions as linear traces ---------------------------------------------------------------
     prios10 = [1, 2, 3, 4, 5, 6, 7, 8, 9, 9]
     # toggle = period (in selections) at which the last message's priority is switched between 8 and 9
-    runs = [("rnd-pert", prios10, "ntsafcxp", 100, 7), ("rnd-storm", [3, 1, 4, 1, 5, 9, 2, 6], "ntsafcxRp", 400, 0),
+    runs = [("rnd-pert", prios10, "ntsafcxp", 100, 7), ("rnd-storm", [3, 1, 4, 0, 5, 9, 2, 6], "ntsafcxRp", 400, 0),
             ("rnd-toggle", [1, 1, 1, 8], "nt", 0, 5)]
     if ctx.thorough:
         runs.insert(0, ("rnd-quiet", prios10, "nt", 0, 0))
